@@ -12,7 +12,7 @@ so the harness needs no knowledge of absolute time (EXAT uses the @T+n token of 
 The type list is a parameter: TYPES maps a type name to (creator commands, probes of the family)."""
 import random
 
-from . import gen
+from . import gen, gen_hash, gen_zset
 
 hx = gen.hx
 
@@ -37,10 +37,12 @@ K, O, N = b"k", b"other", b"newname"
 TYPES = {
     "string": lambda k: [[b"set", k, b"10"]],
     "list": lambda k: [[b"rpush", k, b"a", b"b", b"a"]],
+    "hash": lambda k: [[b"hset", k, b"f", b"1", b"g", b"v"]],
+    "zset": lambda k: [[b"zadd", k, b"1", b"a", b"2", b"b", b"2", b"c"]],
 }
-# types the Coq model covers today; hashes/sets/zsets/streams are added by extending TYPES and
-# PROBES from the check of the family (c06.MODEL_TYPES)
-DEFAULT_TYPES = ["string", "list"]
+# types the Coq model covers today; sets/streams are added by extending TYPES and PROBES
+# (and c06.MODEL_TYPES / MODEL_FAMILIES)
+DEFAULT_TYPES = ["string", "list", "hash", "zset"]
 
 # ---------------------------------------------------------------- probing commands
 # name -> (family, command as a function of nothing); K is the key under test, O an existing
@@ -110,8 +112,36 @@ PROBES = {
     "blpop": ("list", [[b"blpop", K, b"1"]]),
     "brpop_multi": ("list", [[b"brpop", N, K, O, b"1"]]),
     "blpop_2": ("list", [[b"blpop", K, N, b"2"]]),
+    # hashes: reads
+    "hget": ("hash", [[b"hget", K, b"f"]]),
+    "hmget": ("hash", [[b"hmget", K, b"f", b"nofield", b"g"]]),
+    "hgetall": ("hash", [[b"hgetall", K]]),
+    "hkeys": ("hash", [[b"hkeys", K]]),
+    "hvals": ("hash", [[b"hvals", K]]),
+    "hlen": ("hash", [[b"hlen", K]]),
+    "hexists": ("hash", [[b"hexists", K, b"f"]]),
+    "hstrlen": ("hash", [[b"hstrlen", K, b"g"]]),
+    "hrandfield": ("hash", [[b"hrandfield", K]]),
+    "hrandfield_n": ("hash", [[b"hrandfield", K, b"-3", b"WITHVALUES"]]),
+    # hashes: writes
+    "hset": ("hash", [[b"hset", K, b"f", b"9", b"new", b"x"]]),
+    "hsetnx": ("hash", [[b"hsetnx", K, b"f", b"fresh"]]),
+    "hdel": ("hash", [[b"hdel", K, b"f"]]),
+    "hdel_all": ("hash", [[b"hdel", K, b"f", b"g", b"f"]]),
+    "hincrby": ("hash", [[b"hincrby", K, b"f", b"5"]]),
+    "hincrbyfloat": ("hash", [[b"hincrbyfloat", K, b"f", b"0.5"]]),
+    # sorted sets
+    "zrange": ("zset", [[b"zrange", K, b"0", b"-1", b"WITHSCORES"]]),
+    "zrange_rev": ("zset", [[b"zrange", K, b"0", b"0", b"rev"]]),
+    "zrank": ("zset", [[b"zrank", K, b"b"]]),
+    "zadd": ("zset", [[b"zadd", K, b"5", b"e"]]),
+    "zadd_xx_ch": ("zset", [[b"zadd", K, b"XX", b"CH", b"7", b"a"]]),
+    "zadd_nx": ("zset", [[b"zadd", K, b"nx", b"7", b"a", b"8", b"n"]]),
+    "zadd_incr": ("zset", [[b"zadd", K, b"incr", b"1.5", b"a"]]),
+    "zrem": ("zset", [[b"zrem", K, b"a"]]),
+    "zrem_all": ("zset", [[b"zrem", K, b"a", b"b", b"c"]]),
 }
-DEFAULT_FAMILIES = ["string", "key", "list"]
+DEFAULT_FAMILIES = ["string", "key", "list", "hash", "zset"]
 
 OFFSETS = [("d-1s", -1000), ("d-1ms", -1), ("d", 0), ("d+1ms", 1), ("d+1s", 1000)]
 
@@ -151,6 +181,9 @@ def attach_ways(typ):
     ways.append(("rpush_keeps", 2, [[b"rpush", K, b"z"]], [2]))
     ways.append(("lpop_keeps", 2, [[b"lpop", K]], [2]))
     ways.append(("lmove_self_keeps", 2, [[b"lmove", K, K, b"left", b"right"]], [2]))
+    ways.append(("hset_keeps", 2, [[b"hset", K, b"n", b"1"]], [2]))
+    ways.append(("hincrby_hdel_keeps", 2, [[b"hincrby", K, b"f", b"1"], [b"hdel", K, b"g"]], [2]))
+    ways.append(("zadd_zrem_keeps", 2, [[b"zadd", K, b"9", b"z"], [b"zrem", K, b"a"]], [2]))
     # RENAME of a key with a deadline onto K (which may have its own), and away and back
     creator = TYPES[typ]
     ways.append(("rename_onto", 4, creator(b"src") + [[b"expire", b"src", b"2"], [b"rename", b"src", K]], [2, 4]))
@@ -187,7 +220,7 @@ def build_case(name, typ, way, cand, off_ms, phase, probe_cmds, dbs=1):
 
 
 def gen_matrix(seed, tier, types=None, families=None):
-    """every (type, way, candidate deadline, offset, probe); quick: two seeded clock phases per
+    """every (type, way, candidate deadline, offset, probe); quick: one seeded clock phase per
     (type, way, deadline, offset); thorough: six phases."""
     r = random.Random(seed)
     types = types or DEFAULT_TYPES
@@ -203,7 +236,7 @@ def gen_matrix(seed, tier, types=None, families=None):
                         continue
                     if tier == "quick":
                         chosen = probes
-                        phases = r.sample([0, 1, 250, 500, 998, 999], 2)
+                        phases = [r.choice([0, 1, 250, 500, 998, 999])]
                     else:
                         chosen = probes
                         phases = [0, 1, 250, 500, 998, 999]
@@ -236,6 +269,10 @@ def gen_timer(seed, types=None):
             "lazy_then_recreate": mk(K) + [[b"expire", K, b"1"], ("sleep", 1000), [b"exists", K]] + mk(K),
             "expired_stays_gone": mk(K) + [[b"expire", K, b"1"]],
         }
+        if typ == "hash":
+            scen["emptied_then_recreated"] = mk(K) + [[b"expire", K, b"1"], ("sleep", 500), [b"hdel", K, b"f", b"g"], [b"hset", K, b"n", b"1"]]
+        if typ == "zset":
+            scen["emptied_then_recreated"] = mk(K) + [[b"expire", K, b"1"], ("sleep", 500), [b"zrem", K, b"a", b"b", b"c"], [b"zadd", K, b"1", b"n"]]
         if typ == "list":
             scen["emptied_then_recreated"] = mk(K) + [[b"expire", K, b"1"], ("sleep", 500), [b"lpop", K, b"3"], [b"rpush", K, b"n"]]
             scen["blpop_emptied_then_recreated"] = [[b"rpush", K, b"one"], [b"expire", K, b"1"], [b"blpop", K, b"1"], [b"rpush", K, b"n"]]
@@ -285,10 +322,14 @@ def gen_random(seed, n, types=None):
                 cmd = r.choice(ttlcmds(k))
             elif x < 0.6:
                 cmd = r.choice(TYPES[r.choice(types)](k))
-            elif x < 0.8:
+            elif x < 0.7:
                 cmd = gen.list_cmd(r, keys)
-            else:
+            elif x < 0.8:
                 cmd = gen.string_cmd(r, keys)
+            elif x < 0.9:
+                cmd = gen_hash.hash_cmd(r, keys, {})
+            else:
+                cmd = gen_zset.zset_cmd(r, keys, "dyadic")
             if cmd and cmd[0].lower() in (b"blpop", b"brpop") and cmd[-1] == b"0":
                 cmd[-1] = b"1"
             sl = r.choice([0, 0, 0, 1, 99, 100, 400, 500, 900, 999, 1000, 1001, 1999, 2000]) if r.random() < 0.5 else 0
